@@ -1,6 +1,8 @@
 package diff
 
 import (
+	"encoding/json"
+	"regexp"
 	"strings"
 
 	"github.com/onflow/cadence/ast"
@@ -149,6 +151,9 @@ func c01Findings() []c01Finding {
 		{ID: "FF3", Repro: reproFF3, Match: func(h prog.History, engine string, o Obs, src string) bool {
 			return engine == "interpreter" && o.Root == rootValueTransfer && strings.Contains(o.Err, msgGenericFnTransfer)
 		}},
+		{ID: "FR1", Repro: reproFR1, Match: func(h prog.History, engine string, o Obs, src string) bool {
+			return engine == "interpreter" && o.Root == rootInvalidatedResource && (hasMemberIndexSwap(src) || memberIndexSwapUpTo(h, -1))
+		}},
 		{ID: "FF4", Repro: reproFF4, Match: func(h prog.History, engine string, o Obs, src string) bool {
 			return engine == "vm" && o.Root == rootUnexpected && strings.Contains(o.Err, msgContractNonAddress) &&
 				declaresContractOutsideAccount(src)
@@ -156,10 +161,141 @@ func c01Findings() []c01Finding {
 	}
 }
 
+// hasMemberIndexSwap: a swap statement with an operand `x.f[i]` (index into a member) — the trigger of finding FR1 of group res.
+func hasMemberIndexSwap(src string) bool {
+	p := parse(src)
+	if p == nil {
+		return false
+	}
+	found := false
+	ast.Inspect(p, func(e ast.Element) bool {
+		if s, ok := e.(*ast.SwapStatement); ok {
+			for _, side := range []ast.Expression{s.Left, s.Right} {
+				if ix, ok := side.(*ast.IndexExpression); ok {
+					if _, ok := ix.TargetExpression.(*ast.MemberExpression); ok {
+						found = true
+					}
+				}
+			}
+		}
+		return true
+	})
+	return found
+}
+
+// memberIndexSwapUpTo: the step where the engines diverge, or a contract deployed before it, contains such a swap.
+func memberIndexSwapUpTo(h prog.History, step int) bool {
+	if step < 0 || step >= len(h.Steps) {
+		step = len(h.Steps) - 1
+	}
+	for i := 0; i <= step; i++ {
+		if (i == step || h.Steps[i].Kind == prog.Deploy || h.Steps[i].Kind == prog.Update) && hasMemberIndexSwap(h.Steps[i].Source) {
+			return true
+		}
+	}
+	return false
+}
+
+func stripSomeWrappers(v any) any {
+	switch x := v.(type) {
+	case map[string]any:
+		if x["type"] == "Optional" && x["value"] != nil && len(x) == 2 {
+			return stripSomeWrappers(x["value"])
+		}
+		out := map[string]any{}
+		for k, e := range x {
+			out[k] = stripSomeWrappers(e)
+		}
+		return out
+	case []any:
+		out := make([]any, len(x))
+		for i, e := range x {
+			out[i] = stripSomeWrappers(e)
+		}
+		return out
+	}
+	return v
+}
+
+// onlyDestroyEventOptionalBoxingDiffers: the two event lists (joined JSON-CDC) contain a ResourceDestroyed event and are
+// equal once non-nil Optional wrappers are removed — finding FR3 of group res (interpreter does not box default arguments).
+func onlyDestroyEventOptionalBoxingDiffers(a, b string) bool {
+	if !strings.Contains(a, ".ResourceDestroyed\"") || a == b {
+		return false
+	}
+	as, bs := strings.Split(a, " | "), strings.Split(b, " | ")
+	if len(as) != len(bs) {
+		return false
+	}
+	for i := range as {
+		var x, y any
+		if json.Unmarshal([]byte(as[i]), &x) != nil || json.Unmarshal([]byte(bs[i]), &y) != nil {
+			return false
+		}
+		xb, _ := json.Marshal(stripSomeWrappers(x))
+		yb, _ := json.Marshal(stripSomeWrappers(y))
+		if string(xb) != string(yb) {
+			return false
+		}
+	}
+	return true
+}
+
+var (
+	reproFR1 = prog.History{Steps: []prog.Step{
+		{Kind: prog.Deploy, Name: "C", Signers: []uint64{1}, Source: `access(all) contract C {
+    access(all) resource R {
+        access(all) event ResourceDestroyed(id: UInt64 = self.uuid, tag: String? = "t")
+        access(all) var arr: @[R]
+        init() { self.arr <- [] }
+    }
+    access(all) fun mk(): @R { return <- create R() }
+}`},
+		{Kind: prog.Tx, Signers: []uint64{1}, Source: `import C from 0x1
+transaction { prepare(a: &Account) {
+    var r <- C.mk()
+    r.arr.append(<- C.mk())
+    var o <- C.mk()
+    r.arr[0] <-> o
+    destroy o
+    destroy r
+} }`}}}
+	reproFR3 = prog.History{Steps: []prog.Step{reproFR1.Steps[0],
+		{Kind: prog.Tx, Signers: []uint64{1}, Source: `import C from 0x1
+transaction { prepare(a: &Account) { destroy C.mk() } }`}}}
+)
+
+var paramNameRe = regexp.MustCompile(`"label":"[^"]*","id":"[^"]*"`)
+
+// onlyFunctionParamNamesDiffer: both results are exported function values whose JSON-CDC
+// forms are identical except for the parameter label/id strings of the function type.
+func onlyFunctionParamNamesDiffer(a, b string) bool {
+	if !strings.Contains(a, `"kind":"Function"`) || !strings.Contains(b, `"kind":"Function"`) || a == b {
+		return false
+	}
+	return paramNameRe.ReplaceAllString(a, "") == paramNameRe.ReplaceAllString(b, "")
+}
+
+var reproFF7 = script(`
+access(all) fun test() { getFunction()(3) }
+access(all) fun getFunction(): (fun(Int)) {
+    return fun(_ n: Int) { log("function implementation") }
+}
+access(all) fun main(): fun(Int): Void { return getFunction() }`)
+
 // c34Findings lists the known root causes of engine divergence (narrow predicates:
 // feature/shape of the program + the pair of outcome classes and root error types).
 func c34Findings() []c34Finding {
 	return []c34Finding{
+		{ID: "FF7", Repro: reproFF7, Match: func(h prog.History, pair string, d *Divergence, src string) bool {
+			return pair == "interpreter~vm" && d.What == "value" && onlyFunctionParamNamesDiffer(d.A, d.B)
+		}},
+		{ID: "FR1", Repro: reproFR1, Match: func(h prog.History, pair string, d *Divergence, src string) bool {
+			return pair == "interpreter~vm" && strings.HasPrefix(d.Sig, "class internal/"+rootInvalidatedResource+" vs ") && memberIndexSwapUpTo(h, d.Step)
+		}},
+		{ID: "FR3", Repro: reproFR3, Match: func(h prog.History, pair string, d *Divergence, src string) bool {
+			return pair == "interpreter~vm" && d.What == "events" && onlyDestroyEventOptionalBoxingDiffers(d.A, d.B)
+		}},
 		{ID: "FF3", Repro: reproFF3, Match: func(h prog.History, pair string, d *Divergence, src string) bool {
 			return pair == "interpreter~vm" && d.What == "class" &&
 				strings.HasPrefix(d.Sig, "class internal/"+rootValueTransfer+" vs ") && strings.Contains(d.A, msgGenericFnTransfer)
